@@ -21,6 +21,7 @@ EXPLANATION = (
     "SHARED also rejects one mutable program object replicated under many keys / slots (dict.fromkeys(keys, Obj()), [Obj()] * n). SHARED: no method assigns a class attribute (cls.x / Type.x / type(self).x), no class-level mutable literal, no mutable default argument is written through. "
     "NOT decided: equality of decoded objects (runtime)."
     ' Round 4 (added): a decoder tests the presence of an optional key by membership, never by the truth value of the decoded value (booleans excepted by table); a field annotated tuple[...] of a pure dataclass receives a tuple in every decoder call; registers are written from the coordinates they hold (_coords/_coords_arr), not from the rounded/sorted copies.'
+    " Round 5 (added): complex values are converted back by the Results decoder; atom_order is stringified; State's in-place check compares with the rebuilt state's own norm; WeightMap writes every coordinate (KNOWN: 2D only)."
 )
 ASSUMPTIONS = ["the serialisers are reflective (dataclasses.fields); the rule checks the declared fields, the optional tables and the schemas that this reflection relies on"]
 
